@@ -323,6 +323,130 @@ def race_run(kind):
     return run
 
 
+# ------------------------------------------------------------------ a client leaving racing server.close()
+def leave_race_run(kind, who, mode):
+    """two clients are connected; one of them leaves (close / drop / reset) while another thread closes the server: the
+    other client must be terminated, every hook must run once and nothing may be left - on every schedule inside the window"""
+    def run(choices, want_state, cut_fn):
+        box = {}
+
+        def main():
+            sch = S.current_sched()
+            sch.armed = False
+            srv = H.make_server(kind, nthreads=2)
+            st = S.SimThread(target=srv.start, name="server")
+            st.start()
+            S.sim_time.sleep(0.2)
+            cs = [H.Client("a", timeout=10), H.Client("b", timeout=10)]
+            res = {}
+            for c in cs:
+                res[c.name + ".connect"] = c.connect()
+                res[c.name + ".call0"] = c.call("echo", 0)[:2]
+                S.sim_time.sleep(0.3)
+            leaver, stayer = cs[who], cs[1 - who]
+
+            def leave():
+                if mode == "reset":
+                    import struct
+                    leaver.sock.setsockopt(simos._real_socket.SOL_SOCKET, simos._real_socket.SO_LINGER, struct.pack("ii", 1, 0))
+                if mode == "graceful":
+                    leaver.graceful()
+                else:
+                    leaver.abrupt()
+
+            def closer():
+                try:
+                    srv.close()
+                except Exception as ex:   # noqa
+                    res["close-raised"] = type(ex).__name__
+            ts = [S.SimThread(target=leave, name="leaver"), S.SimThread(target=closer, name="closer")]
+            sch.armed = True
+            for t in ts:
+                t.start()
+            for t in ts:
+                t.join(100)
+            S.sim_time.sleep(1.0)
+            sch.armed = False
+            res["stayer.call"] = stayer.call("echo", 1)
+            S.sim_time.sleep(1.0)
+            res["acct"] = H.server_accounting(srv, cs)
+            res["hooks"] = sorted((i.connected, i.disconnected) for i in H.Svc.instances)
+            left = [t.name for t in sch.threads if t.state != "done" and not t.name.startswith("client-") and t.name != "main"]
+            res["threads"] = sorted(set(left))
+            box["res"] = res
+            stayer.abrupt()
+            for c in cs:
+                c.actor.stop = True
+
+        def state_fn(s):
+            k = simos.kernel()
+            return canon.state_key(s, [k.fds, k.bound, H.Svc.instances], canon.DEFAULT_PREFIXES + (env.VERIF + "/mc/srvharness.py",))
+
+        import gc
+        gc.disable()
+        simos.reset_kernel()
+        del H.Svc.instances[:]
+        sch = S.Scheduler(choices, sync_points=True, io_points=True, horizon=5000, max_steps=400000,
+                          state_fn=state_fn if want_state else None, cut_fn=cut_fn)
+        sch.run(main)
+        viol = []
+        res = box.get("res")
+        if sch.outcome == "cut":
+            return sch, {"violations": [], "outcome_key": None}
+        if sch.outcome != "done" or res is None:
+            viol.append(("leave-race:scheduler:%s:%s" % (kind, sch.outcome), repr(sch.deadlock_info) + repr(sch.threads[0].exc)))
+            return sch, {"violations": viol, "outcome_key": sch.outcome}
+        tag = "%s:%s" % (kind, mode)
+        if "close-raised" in res:
+            viol.append(("leave-race:server-close-raised:%s:%s" % (tag, res["close-raised"]), ""))
+        call = res["stayer.call"]
+        if call[0] != "EOFError":
+            viol.append(("leave-race:client-still-served-after-server-close:%s:%s" % (tag, call[0]), repr(call)))
+        if res["acct"]["fds"] != 0 or res["acct"].get("clients") or res["acct"].get("fd_to_conn") or res["acct"].get("poll"):
+            viol.append(("leave-race:server-holds-entries-after-close:%s" % tag, repr(res["acct"])))
+        if res["hooks"] != [(1, 1), (1, 1)]:
+            viol.append(("leave-race:disconnect-hooks:%s" % tag, repr(res["hooks"])))
+        if res["threads"]:
+            viol.append(("leave-race:server-threads-still-running:%s" % tag, repr(res["threads"])))
+        return sch, {"violations": viol, "outcome_key": (call[0], tuple(res["hooks"]), tuple(sorted(res["acct"].items())))}
+    return run
+
+
+def watch_close_lines():
+    from mc import trace
+    from rpyc.utils import server as rs
+    if _watched_close[0]:
+        return
+    trace.watch([rs.Server._authenticate_and_serve_client, rs.Server.close, rs.ThreadPoolServer.close,
+                 rs.ThreadPoolServer._drop_connection, rs.ThreadPoolServer._handle_poll_result])
+    _watched_close[0] = True
+
+
+_watched_close = [False]
+LEAVE_RACE = [(k, w, m) for k in ("threaded", "pool") for w in (0, 1) for m in ("drop", "graceful", "reset")]
+
+
+def explore_leave_race(res, tier, unlisted):
+    watch_close_lines()
+    for kind, who, mode in LEAVE_RACE:
+        if any(unlisted(v[0]) for v in res.violations):
+            return
+        ex = explore.ParallelExplorer(leave_race_run(kind, who, mode), bound=2 if tier == "quick" else 3, use_cache=False,
+                                      deviations=True, task_execs=40, warmup_execs=4, max_seconds=120 if tier == "quick" else 1500,
+                                      stop_on_violation=unlisted)
+        ex.explore()
+        ex.stats.states = max(ex.stats.states, ex.stats.executions)
+        ex.stats.transitions = max(ex.stats.transitions, ex.stats.executions)
+        best = {}
+        for sig, text, ch in ex.violations:
+            if sig not in best or len(ch) < len(best[sig][1]):
+                best[sig] = (text, ch)
+        ex.violations = [(sg, t, ch) for sg, (t, ch) in sorted(best.items())]
+        name = "leave-race/%s/%d/%s" % (kind, who, mode)
+        res.add_explorer(name, ex)
+        res.bounds[name] = "deviations<=%s" % ex.stats.bound_completed
+
+
 _watched = [False]
 
 
@@ -336,14 +460,16 @@ def watch_pool_lines():
     _watched[0] = True
 
 
-def reuse_run(kind, oracle="C17"):
+def reuse_run(kind, oracle="C17", nthreads=1, gate=False, reset=False):
     """a client leaves abruptly while another one connects: descriptor numbers are recycled by the kernel, the server's
     tables are keyed by descriptor - the newcomer must be served and nothing of the departed client may be left"""
     def run(choices, want_state, cut_fn):
         box = {}
 
         def main():
-            srv = H.make_server(kind)
+            sch = S.current_sched()
+            sch.armed = False          # set-up runs on the default schedule; exploration starts where the two clients act
+            srv = H.make_server(kind, nthreads=nthreads)
             st = S.SimThread(target=srv.start, name="server")
             st.start()
             S.sim_time.sleep(0.2)
@@ -351,19 +477,44 @@ def reuse_run(kind, oracle="C17"):
             res = {}
             res["a.connect"] = a.connect()
             S.sim_time.sleep(0.3)
+            # which code path drops connections, and whether the leaver's connection had already closed itself (and so
+            # released its descriptor number) when that path was entered: part of the C16 signature, so that a recorded
+            # finding covers one call site only
+            drops = res["drops"] = []
+            if hasattr(srv, "fd_to_conn"):
+                olds = list(srv.fd_to_conn.values())
+                orig_drop = srv._drop_connection
+
+                def logged_drop(fd):
+                    import sys as _sys
+                    drops.append("%s/leaver-%s" % (_sys._getframe(1).f_code.co_name,
+                                                   "closed" if all(c.closed for c in olds) else "open"))
+                    return orig_drop(fd)
+                srv._drop_connection = logged_drop
 
             def leave():
+                if reset:
+                    # abortive close: the server's poll reports an error/hang-up instead of readable end-of-stream, so the
+                    # polling thread (not a worker) drops the connection
+                    import struct
+                    a.sock.setsockopt(simos._real_socket.SOL_SOCKET, simos._real_socket.SO_LINGER, struct.pack("ii", 1, 0))
                 a.abrupt()
 
             def arrive():
+                if gate and hasattr(srv, "fd_to_conn"):
+                    # forced collision: the newcomer connects as soon as the leaver's server-side connection has released
+                    # its descriptor number, so that the number is recycled in (nearly) every execution
+                    S.current_sched().block(lambda: all(c.closed for c in olds), S.sim_time.time() + 5, "gate")
                 res["b.connect"] = b.connect()
                 res["b.call"] = b.call("echo", 2)[:2]
             ts = [S.SimThread(target=leave, name="leaver"), S.SimThread(target=arrive, name="arriver")]
+            sch.armed = True
             for t in ts:
                 t.start()
             for t in ts:
                 t.join(100)
             S.sim_time.sleep(1.0)
+            sch.armed = False          # tear-down on the default schedule again
             res["b.call2"] = ("value", ("echo", 3))
             res["acct"] = H.server_accounting(srv, [a, b])
             res["hooks"] = sorted((i.connected, i.disconnected) for i in H.Svc.instances)
@@ -400,7 +551,8 @@ def reuse_run(kind, oracle="C17"):
             # C16: the well-behaved newcomer is served correctly whatever the departing client does
             if not served:
                 got = res.get("b.call")
-                viol.append(("fd-reuse:newcomer-not-served:%s:first-call=%s" % (kind, got[0] if got else None), "%r" % (got,)))
+                viol.append(("fd-reuse:newcomer-not-served:%s:first-call=%s:dropped-by=%s" % (
+                    kind, got[0] if got else None, "+".join(sorted(set(res.get("drops", ())))) or "nobody"), "%r drops %r" % (got, res.get("drops"))))
         else:
             # C17: nothing of a DEPARTED client may be left (a newcomer that was dropped is C16's business)
             if served and res["acct"]["fds"] != 2:
@@ -415,6 +567,63 @@ def reuse_run(kind, oracle="C17"):
     return run
 
 
+# descriptor-reuse scenario variants: (leaver resets instead of closing, newcomer gated on the released descriptor, pool workers)
+REUSE_VARIANTS = [(False, False, 1), (False, True, 1), (True, False, 1), (True, True, 1), (False, False, 2), (True, False, 2)]
+
+
+def reuse_part(kind, reset, gate, nt, mode):
+    return "fd-reuse/%s/%s/%s/nt%d/%s" % (kind, "reset" if reset else "close", "gated" if gate else "free", nt, mode)
+
+
+def reuse_from_part(part, oracle):
+    f = part.split("/")
+    if len(f) < 5:
+        return reuse_run(f[1], oracle=oracle, nthreads=4)
+    return reuse_run(f[1], oracle=oracle, nthreads=int(f[4][2:]), gate=(f[3] == "gated"), reset=(f[2] == "reset"))
+
+
+def explore_reuse(res, tier, oracle, unlisted, kind="pool"):
+    """schedules of `a client leaves abruptly (FIN or RST) while a newcomer connects` inside the exploration window (set-up
+    and tear-down run on the default schedule).  deviation-bounded: every non-default scheduling choice, preemptive or
+    not, costs 1 (no state cache: each execution is a distinct choice sequence); thorough adds classic preemption
+    bounding (non-preemptive choices free) with the state cache for the two ungated one-worker variants."""
+    watch_pool_lines()
+    dev = 2 if tier == "quick" else 3
+    for reset, gate, nt in REUSE_VARIANTS:
+        if any(unlisted(v[0]) for v in res.violations):
+            return
+        b = dev if nt == 1 else 2
+        ex = explore.ParallelExplorer(reuse_run(kind, oracle=oracle, nthreads=nt, gate=gate, reset=reset), bound=b, use_cache=False,
+                                      deviations=True, task_execs=40, warmup_execs=4, max_seconds=120 if tier == "quick" else 1500,
+                                      stop_on_violation=unlisted)
+        ex.explore()
+        ex.stats.states = max(ex.stats.states, ex.stats.executions)
+        ex.stats.transitions = max(ex.stats.transitions, ex.stats.executions)
+        best = {}
+        for sig, text, ch in ex.violations:
+            if sig not in best or len(ch) < len(best[sig][1]):
+                best[sig] = (text, ch)
+        ex.violations = [(sg, t, ch) for sg, (t, ch) in sorted(best.items())]
+        name = reuse_part(kind, reset, gate, nt, "dev")
+        res.add_explorer(name, ex)
+        res.bounds[name] = "deviations<=%s" % ex.stats.bound_completed
+    if tier == "thorough":
+        for reset in (False, True):
+            if any(unlisted(v[0]) for v in res.violations):
+                return
+            ex = explore.ParallelExplorer(reuse_run(kind, oracle=oracle, nthreads=1, reset=reset), bound=1, max_seconds=1500,
+                                          stop_on_violation=unlisted)
+            ex.explore()
+            best = {}
+            for sig, text, ch in ex.violations:
+                if sig not in best or len(ch) < len(best[sig][1]):
+                    best[sig] = (text, ch)
+            ex.violations = [(sg, t, ch) for sg, (t, ch) in sorted(best.items())]
+            name = reuse_part(kind, reset, False, 1, "pb")
+            res.add_explorer(name, ex)
+            res.bounds[name] = "preemptions<=%s" % ex.stats.bound_completed
+
+
 CONFIGS = {
     "quick": [("threaded", False, 7), ("pool", False, 7), ("oneshot", False, 5), ("threaded", True, 5), ("pool", True, 5),
               ("forking", False, 5)],
@@ -427,9 +636,13 @@ def replay(rep):
     env.silence_unraisable()
     if rep.get("part", "").startswith("fd-reuse"):
         watch_pool_lines()
-        kind = rep["part"].split("/")[1]
-        a = reuse_run(kind)(rep["choices"], False, None)[1]["violations"]
-        b = reuse_run(kind)(rep["choices"], False, None)[1]["violations"]
+        a = reuse_from_part(rep["part"], "C17")(rep["choices"], False, None)[1]["violations"]
+        b = reuse_from_part(rep["part"], "C17")(rep["choices"], False, None)[1]["violations"]
+    elif rep.get("part", "").startswith("leave-race"):
+        watch_close_lines()
+        _, kind, who, mode = rep["part"].split("/")
+        a = leave_race_run(kind, int(who), mode)(rep["choices"], False, None)[1]["violations"]
+        b = leave_race_run(kind, int(who), mode)(rep["choices"], False, None)[1]["violations"]
     elif rep.get("part", "").startswith("race"):
         kind = rep["part"].split("/")[1]
         a = race_run(kind)(rep["choices"], False, None)[1]["violations"]
@@ -490,13 +703,8 @@ def main(tier, replay_obj=None):
         ex.explore()
         res.add_explorer("race/%s" % kind, ex)
         res.bounds["race/%s" % kind] = ex.stats.bound_completed
-    watch_pool_lines()
-    for kind in ("pool",):
-        ex = explore.ParallelExplorer(reuse_run(kind), bound=1 if tier == "quick" else 2, max_seconds=150 if tier == "quick" else 2500,
-                                      max_execs=30000 if tier == "quick" else None, stop_on_violation=unlisted)
-        ex.explore()
-        res.add_explorer("fd-reuse/%s" % kind, ex)
-        res.bounds["fd-reuse/%s" % kind] = ex.stats.bound_completed
+    explore_reuse(res, tier, "C17", unlisted)
+    explore_leave_race(res, tier, unlisted)
     res.assumptions = ["simulated kernel (conformance-tested against the real one in selftest) - no socket buffer limits, no RST/FIN subtleties",
                        "each event is followed by %.1f virtual seconds of settling" % SETTLE,
                        "forking server: fork() is emulated for the one call shape rpyc uses (see mc/simos.py); signals other than SIGCHLD are not modelled"]
